@@ -90,6 +90,7 @@ func runChild(cfg hx.Config) error {
 	if os.Getenv("C05_SKIP_WITNESSES") == "" { // (mutation experiments: see what the generators alone find)
 		replayCancelledContext(r, rnd)
 		replayRemoteSwallowed(r, rnd)
+		replayNonFunctionalIds(r, rnd)
 		if err := runCorpus(r, rnd, cfg.Corpus); err != nil {
 			return err
 		}
@@ -244,4 +245,33 @@ func runCorpus(r *hx.Run, rnd *hx.Rand, dir string) error {
 		}
 	}
 	return nil
+}
+
+// replayNonFunctionalIds replays, on the real code, the counterexample of
+// theorem collect_perm_needs_functional_ids_counterexample: two matchers
+// return different objects under one id; which one the table keeps depends on
+// the schedule. It is not a defect (a store hands out one object per id); the
+// run records that both outcomes occur and that nothing else does.
+func replayNonFunctionalIds(r *hx.Run, rnd *hx.Rand) {
+	sc := &scenario{api: "enriched", ctx: "live",
+		pkgs: []pkgS{{1, 1, 1}},
+		envs: []envS{{pkg: 1}},
+		matchers: []matcherS{
+			{kind: "remote", thresh: 8, verr: 16, q: []int{cMatcherIndexOffset}, remote: []remoteEnt{{1, []vulnS{{7, 10}}}}},
+			{kind: "remote", thresh: 8, verr: 16, q: []int{cMatcherIndexOffset + 1}, remote: []remoteEnt{{1, []vulnS{{7, 20}}}}},
+		},
+	}
+	seen := map[string]int{}
+	for i := 0; i < 200 && !tooManyHangs(); i++ {
+		w := newWorld(sc, rnd.Fork())
+		res := call(w, 1+i%8)
+		r.Case(fmt.Sprintf("non-functional-ids #%d", i), i == 0)
+		obs := canon(sc, res)
+		seen[obs]++
+		if obs != "ok V=7.10 P=1:7+7 E=-" && obs != "ok V=7.20 P=1:7+7 E=-" {
+			r.Fail("", "two objects under one id: the report is neither of the two possible ones: "+obs)
+			break
+		}
+	}
+	r.Notes["two_objects_one_id_outcomes"] = seen
 }
